@@ -20,7 +20,7 @@ RULE = ("every Exception subclass of builtins and Pyro5.errors x argument tuples
 ASSUMPTIONS = ["classes that cannot be constructed from the value domain (e.g. ExceptionGroup) are counted as skipped",
                "StopIteration raised from an iterator's __next__ is the end of the stream, not an exception, so it is not used for the stream kind",
                "builtin slot attributes (OSError.filename, ImportError.name, ...) are neither args nor custom attributes"]
-REQUIRED_REACH = ["exc_ok", "kind_plain", "kind_propget", "kind_propset", "kind_batch", "kind_stream", "unserialisable_ok", "unknown_class_ok", "next_call_ok", "codec_baseexc_ok"]
+REQUIRED_REACH = ["aftermath_cases", "exc_ok", "kind_plain", "kind_propget", "kind_propset", "kind_batch", "kind_stream", "unserialisable_ok", "unknown_class_ok", "next_call_ok", "codec_baseexc_ok"]
 SHARD_TIMEOUT = {"quick": 240, "thorough": 2800}
 
 ARG_SHAPES = [(), ("msg",), ("msg", 2), (2, "strerror"), ("é\x00x", [1, {"k": None}], 2 ** 70, 1.5), ({"d": [1, 2.5, "s"]},), (None,), ("a", "b", "c", "d", "e", "f")]
@@ -398,6 +398,13 @@ def run_shard(shard, rec):
                 check_unserialisable(fx, p, sername, extra, clsname, rec, "tok%d" % tokn[0], registry)
         tokn[0] += 1
         check_unserialisable(fx, p, sername, "unknown-class", "checks.c07_exceptions.UnknownToReceiver", rec, "tok%d" % tokn[0], registry)
+        # aftermath: the same daemon, after it had to fall back for unserialisable exceptions of these classes, still delivers ordinary
+        # exceptions of the very same classes unchanged (nothing learnt from one exception may be applied to the next)
+        for clsname in ("builtins.ValueError", "builtins.KeyError", "Pyro5.errors.NamingError", "builtins.OSError"):
+            for kind in ("plain", "propget", "stream2", "batch1"):
+                tokn[0] += 1
+                check_case(fx, p, armed, registry[clsname], clsname, ("after the fallback", 2), {"custom_a": 1}, sername, kind, rec, "tok%d" % tokn[0])
+                rec.count("aftermath_cases")
         p._pyroRelease()
         for kind, text in fixture.take_faults():
             if kind == "thread-exception":
